@@ -21,6 +21,9 @@ type pkg struct {
 	inprog  map[string]bool
 	order   []string
 	coqUsed map[string]string // Coq definition name -> function key
+	// memory-level output (mem.go)
+	mem      map[string]*msummary
+	memOrder []string
 }
 
 func (p *pkg) pos(n ast.Node) string { return p.fset.Position(n.Pos()).String() }
@@ -64,7 +67,7 @@ func loadPkg(dir string, cfg *config) *pkg {
 		cfg: cfg, fset: token.NewFileSet(),
 		funcs: map[string]*ast.FuncDecl{}, globals: map[string][]string{},
 		done: map[string]*summary{}, inprog: map[string]bool{},
-		coqUsed: map[string]string{},
+		coqUsed: map[string]string{}, mem: map[string]*msummary{},
 	}
 	for _, name := range cfg.files {
 		f, err := parser.ParseFile(p.fset, filepath.Join(dir, name), nil, parser.SkipObjectResolution)
